@@ -368,6 +368,27 @@ def scenarios(tier, seed):
       out.append(
         dict(fam="tree", base=base, variant=variant, energy=idx % 2, tags=[t1, t2], sensors=[x1.replace("{C}", _cut(c1)), x2.replace("{C}", _cut(c2))], pair=True)
       )
+  # joint #k and tendon #k share the object id k: both limit sensors present (both orders), every stage
+  for base in BASES:
+    o = _tree_objects(base)
+    parents, joints = BASES[base]
+    jid, k = {}, 0
+    for i, kind in enumerate(joints, 1):
+      for nm in {"hingeslide": (f"j{i}", f"j{i}b"), "weld": (), "mocap": ()}.get(kind, (f"j{i}",)):
+        jid[nm] = k
+        k += 1
+    for tid, t in enumerate(o["tendon"]):
+      for j in o["scal"]:
+        if jid[j] != tid:
+          continue
+        for st in ("pos", "vel", "frc"):
+          a, b = f'<jointlimit{st} joint="{j}"{{C}}/>', f'<tendonlimit{st} tendon="{t}"{{C}}/>'
+          for pair in ((a, b), (b, a)):
+            for cut in (0, 0.15):
+              idx += 1
+              out.append(
+                dict(fam="tree", base=base, variant=variant, energy=idx % 2, tags=[f"jointlimit{st}", f"tendonlimit{st}"], sensors=[x.replace("{C}", _cut(cut)) for x in pair], pair=True, idclash=1)
+              )
   # everything at once, rotated (addresses of every stage list interleaved)
   for base in BASES:
     reps = _representatives(base, tier)
